@@ -64,7 +64,16 @@ func (n *Network) FastNetworkSolver() (Solver, error) {
 	inList := make([]*NNode, 0)
 	biasList := make([]*NNode, 0)
 	hiddenList := make([]*NNode, 0)
+	// the sensors are taken in the order of the inputs list, i.e. in the order LoadSensors assigns the values to them
+	pending := make(map[*NNode]bool, len(n.allNodes))
 	for _, ne := range n.allNodes {
+		pending[ne] = true
+	}
+	for _, ne := range append(append([]*NNode{}, n.inputs...), n.allNodes...) {
+		if !pending[ne] {
+			continue
+		}
+		pending[ne] = false
 		switch ne.NeuronType {
 		case BiasNeuron:
 			biasNeuronCount += 1
